@@ -436,6 +436,10 @@ def cli_edge_scenarios(run):
         (base, ["-e", "Pair:Si-O=as.buck ${Z} 0.3 1.0"], base.replace("as.buck ${A} 0.3 1.0", "as.buck ${Z} 0.3 1.0")),
         (base, ["-a", "Pair:O-O=as.buck ${A} 0.3 ${Z}"], base.replace("as.buck ${A} 0.3 1.0\n", "as.buck ${A} 0.3 1.0\nO-O : as.buck ${A} 0.3 ${Z}\n")),
         (base, ["-a", "Variables:Z=3.0", "-a", "Pair:O-O=as.buck ${A} 0.3 ${Z}"], base.replace("A : 1000.0\n", "A : 1000.0\nZ : 3.0\n").replace("as.buck ${A} 0.3 1.0\n", "as.buck ${A} 0.3 1.0\nO-O : as.buck ${A} 0.3 ${Z}\n")),
+        # a value that names a variable which a LATER operation of the same invocation supplies (overrides run before additions; additions in the order given): the
+        # edited file is what counts - placeholders are resolved when everything has been applied (round-8 seed C14_13)
+        (base, ["-e", "Pair:Si-O=as.buck ${Anew} 0.3 1.0", "-a", "Variables:Anew=1200.0"], base.replace("A : 1000.0\n", "A : 1000.0\nAnew : 1200.0\n").replace("as.buck ${A} 0.3 1.0", "as.buck ${Anew} 0.3 1.0")),
+        (base, ["-a", "Pair:O-O=as.buck ${A} 0.3 ${Z}", "-a", "Variables:Z=3.0"], base.replace("A : 1000.0\n", "A : 1000.0\nZ : 3.0\n").replace("as.buck ${A} 0.3 1.0\n", "as.buck ${A} 0.3 1.0\nO-O : as.buck ${A} 0.3 ${Z}\n")),
     ]
     for text, args, hand in ph:
         r1, r2 = impl.potable_cli(text, args=args), impl.potable_cli(hand)
